@@ -11,8 +11,9 @@
      with locals).  Actor [AProd] starts the head of `jobq` when nothing runs, otherwise executes the next step of
      the running job.  Queued jobs run even when every strong reference to the Desync is gone (`Drop for Desync`
      synchronises the queue first), so [AProd] does not look at [desync_alive].
-   * Job ids are allocated at enqueue time (`length live`); the `PipeWaker` a job creates (l.131) is identified by
-     the job id; `live !! j = Some true` means `context` of that waker is still `Some` (the waker is one-shot).
+   * Job ids are allocated at enqueue time (`njobs`); the `PipeWaker` a job creates (l.131) is identified by the
+     job id; `wtaken` lists the wakers whose `context` has been taken (l.170): the waker is one-shot, it is
+     live as long as it is not in `wtaken`.
    * The input stream: `inp_rest` (items not yet yielded), `inp_avail` (how many of them are available),
      `inp_ended`, `inp_waker` (the last registered `desync_waker`), ghost `taken`.  One environment thread:
      [AItem] / [AEnd] take the registered waker into `ewk`, and [AEnv] then performs the wake, step by step.
@@ -98,7 +99,7 @@ Record state := {
   (* PipeStreamCore *)
   depth : nat; pending : list nat; closed : bool; notify : bool; nsc : option nat; bp : option nat;
   (* PipeContext / PipeWakers *)
-  poll_fn : bool; live : list bool;
+  poll_fn : bool; njobs : nat; wtaken : list nat;
   (* ObjExec *)
   jobq : list nat; running : option (nat * jpc);
   (* consumer *)
@@ -109,26 +110,27 @@ Record state := {
   strong_held : bool; ext_owner : bool; chute : bool;
 }.
 #[export] Instance eta_state : Settable _ := settable! Build_state
-  <inp_rest; inp_avail; inp_ended; inp_waker; taken; depth; pending; closed; notify; nsc; bp; poll_fn; live; jobq; running;
+  <inp_rest; inp_avail; inp_ended; inp_waker; taken; depth; pending; closed; notify; nsc; bp; poll_fn; njobs; wtaken; jobq; running;
    cst; cwoken; cwk; delivered; got_end; ewk; strong_held; ext_owner; chute>.
 
 Definition core_locked (s : state) : bool := match s.(cst) with CDrop1 => true | _ => false end.
 Definition core_gone (s : state) : bool := match s.(cst) with CGone => true | _ => false end.
 Definition dropped (s : state) : bool := match s.(cst) with CDrop1 | CDrop2 | CGone => true | _ => false end.
 Definition desync_alive (s : state) : bool := s.(strong_held) || s.(ext_owner).
-Definition is_live (s : state) (j : nat) : bool := match s.(live) !! j with Some true => true | _ => false end.
+Definition live_in (wt : list nat) (j : nat) : bool := negb (bool_decide (j ∈ wt)).
+Definition is_live (s : state) (j : nat) : bool := live_in s.(wtaken) j.
 Definition wk_of (o : option nat) : wk := match o with Some j => WCall j | None => WIdle end.
 Definition wk_idle (w : wk) : bool := match w with WIdle => true | _ => false end.
 
 (* PipeContext::poll, alive branch: a new poll job is queued *)
 Definition enqueue (s : state) : state :=
-  s <| jobq := s.(jobq) ++ [length s.(live)] |> <| live := s.(live) ++ [true] |>.
+  s <| jobq := s.(jobq) ++ [s.(njobs)] |> <| njobs := S s.(njobs) |>.
 
 (* one step of a thread calling a PipeWaker *)
 Definition wake_step (s : state) (w : wk) : option (wk * state) :=
   match w with
   | WIdle => None
-  | WCall j => if is_live s j then Some (WCtx, s <| live := <[j := false]> s.(live) |>) else Some (WIdle, s)
+  | WCall j => if is_live s j then Some (WCtx, s <| wtaken := j :: s.(wtaken) |>) else Some (WIdle, s)
   | WCtx => if desync_alive s then Some (WIdle, enqueue s) else Some (WTakeFn, s)
   | WTakeFn => Some (WIdle, s <| poll_fn := false |>)
   end.
@@ -218,7 +220,7 @@ Definition run (F : pfacts) (f : nat -> nat) (s : state) (tr : list actor) : opt
 Definition init (F : pfacts) (inputs : list nat) (ext : bool) : state :=
   {| inp_rest := inputs; inp_avail := 0; inp_ended := false; inp_waker := None; taken := [];
      depth := F.(f_default_depth); pending := []; closed := false; notify := false; nsc := None; bp := None;
-     poll_fn := true; live := [true]; jobq := [0]; running := None;
+     poll_fn := true; njobs := 1; wtaken := []; jobq := [0]; running := None;
      cst := CIdle; cwoken := false; cwk := WIdle; delivered := []; got_end := false;
      ewk := WIdle; strong_held := true; ext_owner := ext; chute := false |}.
 
@@ -253,9 +255,14 @@ Definition cons_waiting (s : state) : bool :=
 Definition cons_wake_inflight (s : state) : bool :=
   match s.(running) with Some (_, JWake true _) => true | _ => false end.
 (* a wake of a PipeWaker / a PipeContext::poll is in flight in thread slot w and will have an effect *)
-Definition wk_tok (s : state) (w : wk) : bool :=
-  match w with WIdle => false | WCall j => is_live s j | WCtx | WTakeFn => true end.
-Definition live_opt (s : state) (o : option nat) : bool := match o with Some j => is_live s j | None => false end.
+Definition wk_tokw (wt : list nat) (w : wk) : bool :=
+  match w with WIdle => false | WCall j => live_in wt j | WCtx | WTakeFn => true end.
+Definition live_optw (wt : list nat) (o : option nat) : bool := match o with Some j => live_in wt j | None => false end.
+Definition wk_tok (s : state) (w : wk) : bool := wk_tokw s.(wtaken) w.
+Definition live_opt (s : state) (o : option nat) : bool := live_optw s.(wtaken) o.
+Arguments live_in : simpl never.
+Arguments wk_tokw _ !w /.
+Arguments live_optw _ !o /.
 
 (* mandatory actors: everything except the consumer's free choices (drop, set depth) *)
 Definition optional (a : actor) : bool := match a with ACDrop | ACSetDepth _ => true | _ => false end.
@@ -277,7 +284,7 @@ Definition terminal_silentb (F : pfacts) (f : nat -> nat) (s : state) : bool :=
    Roots: queued/running jobs (closure captures arc_self), threads inside a wake, live wakers stored in a core that
    still exists.  A live waker registered with the input is the cycle input -> waker -> context -> poll_fn -> input. *)
 Definition ctx_referenced (s : state) : bool :=
-  negb (bool_decide (s.(jobq) = [])) || bool_decide (s.(running) <> None)
+  match s.(jobq) with [] => false | _ => true end || match s.(running) with Some _ => true | None => false end
   || wk_tok s s.(cwk) || wk_tok s s.(ewk)
   || (negb (core_gone s) && (live_opt s s.(nsc) || live_opt s s.(bp)))
   || live_opt s s.(inp_waker).
